@@ -174,11 +174,17 @@ def filter_closed(prog, chk):
     oe = prog.body("<svgdx::transform::OtherElement as svgdx::transform::EventGen>::generate_events")
     chk.touch(oe)
     lits = set()
-    for (bb, t, c) in oe.call_sites(lambda c: c.decl_path == "std::cmp::PartialEq::ne"):
-        for a in t["args"]:
-            o = R.origin(oe, a, carriers={})
+    for ob_ in [oe] + [x for x in prog.bodies.values() if x.root == oe.id]:
+      for (bb, t, c) in ob_.call_sites(lambda c: c.decl_path in ("std::cmp::PartialEq::ne", "std::cmp::PartialEq::eq")):
+        sides = [R.origin(ob_, a, carriers={"as_str": 0, "deref": 0, "as_ref": 0, "borrow": 0}) for a in t["args"]]
+        if any(o[0] == "field" and str(o[1][1][-1]) == ".name" for o in sides):
+            continue  # a test of the element's name, not of an attribute name
+        for o in sides:
             if o[0] == "const" and "str" in o[1]:
                 lits.add(o[1]["str"])
+    if not lits:
+        chk.undecided("A14.passthrough-filter", "OtherElement", oe.where(), "no comparison of an attribute name with a literal found in OtherElement::generate_events (the filter may be a set lookup or live elsewhere)")
+        return
     chk.ob(lits == {"class", "data-src-line", "_", "__"}, "A14.passthrough-filter", "OtherElement", oe.where(), "exactly class, data-src-line, _ and __ are withheld when an element's attributes are copied to the output", f"the pass-through filter withholds {sorted(lits)}")
     # class is re-added from the class list
     ac = oe.call_sites(R.path_endswith("SvgElement::add_classes"))
